@@ -294,7 +294,12 @@ func (s *Session) Run(ctx context.Context, dir string, args ...string) error {
 									if err != nil {
 										return err
 									}
-									bss = []match.Bindings{exe.Bs}
+									if exe.Bs == nil {
+										// The guard rejected the match.
+										bss = nil
+									} else {
+										bss = []match.Bindings{exe.Bs}
+									}
 								}
 							}
 							if bss != nil {
